@@ -129,6 +129,10 @@ impl Gen
 
     fn content_for(&mut self, path : &str) -> Vec<u8>
     {
+        if self.rng.chance(1, 16)
+        {
+            return vec![];      // an empty file: its hash is the hash of nothing, as in FileState::empty()
+        }
         let k = self.rng.below(3);
         if self.shared_pool
         {
